@@ -4,6 +4,9 @@ go 1.23
 
 require (
 	github.com/honeytrap/honeytrap v0.0.0
+	github.com/mimoo/disco v0.0.0-20180114190844-15dd4b8476c9
+	github.com/op/go-logging v0.0.0-20160211212156-b2cb9fa56473
+	golang.org/x/crypto v0.0.0-20200128174031-69ecbb4d6d5d
 	pgregory.net/rapid v1.3.0
 )
 
@@ -37,8 +40,6 @@ require (
 	github.com/mattn/go-isatty v0.0.3 // indirect
 	github.com/miekg/dns v1.0.4 // indirect
 	github.com/mimoo/StrobeGo v0.0.0-20171206114618-43f0c284a7f9 // indirect
-	github.com/mimoo/disco v0.0.0-20180114190844-15dd4b8476c9 // indirect
-	github.com/op/go-logging v0.0.0-20160211212156-b2cb9fa56473 // indirect
 	github.com/pierrec/lz4 v0.0.0-20171218195038-2fcda4cb7018 // indirect
 	github.com/pierrec/xxHash v0.1.1 // indirect
 	github.com/pkg/errors v0.8.0 // indirect
@@ -50,7 +51,6 @@ require (
 	github.com/songgao/water v0.0.0-20180221190335-75f112d19d5a // indirect
 	github.com/streadway/amqp v0.0.0-20180315184602-8e4aba63da9f // indirect
 	github.com/yuin/gopher-lua v0.0.0-20190206043414-8bfc7677f583 // indirect
-	golang.org/x/crypto v0.0.0-20200128174031-69ecbb4d6d5d // indirect
 	golang.org/x/net v0.0.0-20190404232315-eb5bcb51f2a3 // indirect
 	golang.org/x/sys v0.0.0-20200202164722-d101bd2416d5 // indirect
 	golang.org/x/time v0.0.0-20191024005414-555d28b269f0 // indirect
